@@ -399,8 +399,9 @@ class Scheduler:
         return n
 
     def advance(self, dt):
+        """Time passes although tasks may be runnable (a slow thread); logged with src='adv'."""
         self.now += dt
-        self.trace.append({"i": len(self.trace) + 1, "t": "clock", "e": "tick", "now": self.now})
+        self.trace.append({"i": len(self.trace) + 1, "t": "clock", "e": "tick", "now": self.now, "src": "adv"})
 
     def wait_quiescent(self):
         """Block the calling (driver) task until no other task can run and no automatic timer is pending."""
